@@ -14,7 +14,7 @@ REPO = "/repo"
 # which checks cover which file (by path fragment); sync flavours add the twin / concurrency checks
 CHECKS = [
     ("node/adjacent.rs", ["C01", "C02", "C03", "C19"]),
-    ("node/mod.rs", ["C01", "C02", "C03", "C20", "C18"]),
+    ("node/mod.rs", ["C01", "C02", "C03", "C20", "C18", "C12"]),
     ("algo/bfs.rs", ["C04", "C09", "C07"]),
     ("algo/dfs.rs", ["C05", "C09", "C07"]),
     ("algo/pfs.rs", ["C06", "C09", "C07"]),
